@@ -315,3 +315,8 @@ pub fn clauses() -> Vec<Clause> {
         Clause::enumerated("C08", "C08/undelivered/enumerated", "Enumerated: every (wrapper, inner) pair of the catalogue built over leaves that never deliver (Mute) or withhold their first k in {1,5} inputs (Gate): for as long as a twin of the inner view reports nothing, the wrapper's last() must keep returning exactly what it returned before the first update. Non-trivial: at least 3 such updates.", mute_cases, mute_check).with_shard(500),
     ]
 }
+
+/// entry point for the libFuzzer targets: the clause's own oracle on a decoded case
+pub fn fuzz_check(case: &Case) -> Verdict {
+    rf_check(case)
+}
